@@ -1084,7 +1084,12 @@ impl TryFrom<&mut Peekable<Lexer>> for ParserNode {
                             // macros are unsupported
                             // we will just ignore them until the we reach endmacro
                             loop {
-                                let next = lex.get_any()?;
+                                let next = match lex.get_any() {
+                                    // an unterminated macro is ignored up to the end
+                                    // of the file, with the same warning
+                                    Err(LexError::UnexpectedEOF) => break,
+                                    other => other?,
+                                };
                                 if let TokenType::Directive(dir2) = next.token_type() {
                                     if let Ok(new_dir) = DirectiveToken::from_str(dir2) {
                                         if new_dir == DirectiveToken::EndMacro {
